@@ -104,8 +104,9 @@ H("C03", "runtime::verif_h::c03_loop_out_of_bounds", RT, uf=True, covers=1, stub
 for n in (0, 2, 3):
     H("C03", f"runtime::verif_h::c03_load_reject_{n}", RT, covers=1, stubs=[EXIT], functions=["RunEnvironment::from_raw"],
       what=f"loader rejects: {n}-word file, symbolic first word, image does not fit / empty", bounds=f"file length {n} words")
-for nm in ("3000_2", "0_1", "fffe_1", "fdff_3"):
-    H("C03", f"runtime::verif_h::c03_load_place_{nm}", RT, covers=2, stubs=[EXIT], functions=["RunEnvironment::from_raw"],
+for nm in ("3000_2", "4000_0", "0_1", "fffe_1", "fdff_3"):
+    H("C03", f"runtime::verif_h::c03_load_place_{nm}", RT, covers=(1 if nm.endswith("_0") else 2), stubs=[EXIT], functions=["RunEnvironment::from_raw"],
+      allow_unsat=(["expect == 0xABCD"] if nm.endswith("_0") else []),
       timeout=1500, what=f"loader placement at concrete origin/length {nm}, symbolic words, symbolic probe cell", bounds="origin and length concrete")
 
 # ------------------------------------------------------------------ C01
@@ -658,7 +659,7 @@ for nm, what, props, nc in [
 ]:
     for pp in props:
         H(pp, f"runtime::verif_h::{nm}", RT, uf=True, covers=nc, stubs=TRAP_STUBS, timeout=2400, mem_gb=20,
-          tier=("thorough" if nm in ("c03_trap_puts", "c03_trap_putsp", "c03_trap_in_eof") else "quick"),
+          tier=("thorough" if nm in ("c03_trap_putsp", "c03_trap_in_eof") else "quick"),
           functions=["RunState::trap", "Output::print", "Output::print_decimal", "Output::print_registers"], what=what,
           bounds="strings <= 3 words (PUTS) / 2 words (PUTSP), not running through 0xFFFF; input queue <= 2 characters")
 
@@ -678,6 +679,9 @@ for nm, what, props, q in [
     ("c01_pre_blkw_hex2", ".blkw x2: two zero words", ["C01"], True),
     ("c01_pre_blkw_dec3", ".blkw #3: three zero words", ["C01"], False),
     ("c01_pre_stringz", ".stringz \"a\\n\": unescaped code points + terminating zero, text sliced from the real source", ["C01", "C05"], True),
+    ("c01_pre_stringz_backslash_n", ".stringz with an escaped backslash followed by the letter n: backslash, n, 0", ["C01"], True),
+    ("c01_pre_stringz_nonascii", ".stringz with a 2-byte character: one word per character (U+00E9), then 0", ["C01"], True),
+    ("c01_pre_stringz_nonascii_escape", ".stringz with a 2-byte character before an escape: no slicing inside the character", ["C01", "C05"], True),
     ("c01_pre_break_end", ".break -> Breakpoint token, .end stops, comments vanish", ["C01", "C11"], False),
     ("c05_pre_directive_wrong_operand", ".fill/.blkw/.stringz followed by a token of any non-literal kind or by nothing: diagnostic, no panic", ["C05"], True),
 ]:
@@ -687,3 +691,8 @@ for nm, what, props, q in [
 for nm, what in [("c04_litrange_dec5", "#ddddd"), ("c04_litrange_dec_neg5", "#-ddddd"), ("c04_litrange_hex5", "xHHHHH"), ("c04_litrange_hex_neg4", "x-HHHH")]:
     H("C04", f"lexer::verif_h::{nm}", LEX, tier="thorough", covers=2, stubs=[FMT, KW], timeout=3000, mem_gb=24, functions=["Cursor::advance_token", "Cursor::hex", "Cursor::dec"],
       what=f"literal spelling {what} with symbolic digits: a literal iff the value is within [-32768, 65535]; value modulo 2^16", bounds="exactly that many digits")
+
+H("C05", "symbol::verif_h::c17_span_join", SYMF, covers=1, functions=["Span::join"], what="Span::join never underflows, whatever the order of the two spans", bounds="offsets/lengths < 1000")
+for n in (1, 2):
+    H("C10", f"debugger::breakpoint::verif_h::c11_set_len{n}", BPF, covers=2, functions=["Breakpoints::insert", "Breakpoints::remove", "Breakpoints::get"],
+      what=f"break add/remove set semantics on {n} breakpoint(s) (a removed breakpoint never pauses; adding twice leaves one)", bounds=f"list length {n}")
